@@ -111,7 +111,11 @@ func c17Setup() *c17State {
 		rep := int32(verifrt.IntRange("old.replicas", 0, 2*maxR))
 		av := int32(verifrt.IntRange("old.available", 0, 2*maxR))
 		verifrt.Assume(av <= rep)
-		s.oldRSs = append(s.oldRSs, c17RS("rs-old-"+strconv.Itoa(i), i+1, "old"+strconv.Itoa(i), rep, av, 10-i))
+		ors := c17RS("rs-old-"+strconv.Itoa(i), i+1, "old"+strconv.Itoa(i), rep, av, 10-i)
+		// the status may lag behind an earlier scale-down: it still counts pods that are on their way out
+		// (status.replicas > spec.replicas); what is available is among the pods the spec keeps
+		ors.Status.Replicas = rep + int32(verifrt.IntRange("old.statusLag", 0, 2))
+		s.oldRSs = append(s.oldRSs, ors)
 	}
 	s.dc = &DeploymentController{eventRecorder: record.NewFakeRecorder(10), strategy: strategy}
 	verifrt.Stub(stubScaleReplicaSet, func(dc *DeploymentController, ctx context.Context, rs *apps.ReplicaSet, newScale int32, deployment *apps.Deployment, op string) (bool, *apps.ReplicaSet, error) {
